@@ -14,7 +14,13 @@ def main():
     seed = int(os.environ.get("VERIF_SEED", "0") or 0)
     mod = importlib.import_module("props.%s" % pid.lower())
     from engine import xh
-    plan = mod.plan(tier, seed)
+    try:
+        plan = mod.plan(tier, seed)
+    except Exception as e:      # building the encoding failed: a machinery error (exit 3), never a verdict
+        import traceback
+        traceback.print_exc()
+        print("MACHINERY-ERROR: plan for %s could not be built: %r" % (pid, e), file=sys.stderr)
+        return 3
     return xh.run_property(pid, tier, plan.get("conds", []), plan["meta"],
                            obligations=plan.get("obligations"), seed=seed)
 
